@@ -4,7 +4,7 @@ import common
 from leanio import farr, bits, dec, ulp_diff
 
 LEVEL = "proof"
-LEMMA_MODULES = ["Tdma", "Fd", "Newton", "Consts"]
+LEMMA_MODULES = ["Tdma", "Fd", "Newton", "Consts", "MaxPrinciple", "Comparison"]
 RULE = ("Device.get(**kw) field by field vs Dev.get: grid (1e-13), beam-edge index (exact), FD vectors bit-exact from the returned grid, scalars 1e-10, "
         "potentials 1e-9; current 0.01..1 A, 1..20 keV, r_e 20..500 um, tube 6..200 beam radii, barrier 0..1000 V, n_grid 60..2000 incl. values not "
         "divisible by 6, every subset of the four overrides, below the perveance limit. non-trivial = every case; distinct = argument tuple")
